@@ -9,9 +9,13 @@ from adcgen.tensor_names import tensor_names as tn
 
 from .. import adapter, build, events, oracle
 from ..runner import guarded
+from functools import partial
+
+# derivations are long single calls: their own time limit
+guarded = partial(guarded, call_timeout=900)      # DERIVATION
 
 
-def global_models(names, sizes, seeds, K, maxcls, dn=1):
+def global_models(names, sizes, seeds, K, maxcls, dn=1, variant="mp"):
     """One model per (size, seed) with the RSPT oracle switched on."""
     gm = []
     ctx = adapter.Ctx(names=names)
@@ -23,7 +27,8 @@ def global_models(names, sizes, seeds, K, maxcls, dn=1):
         for sd in seeds:
             gm.append(events.model(
                 ctx, noa=no, nva=nv, seed=sd, fock="diag", bkn=bkn,
-                oracle="rspt", gs=oracle.gs_record(names, K, maxcls, dn=dn)))
+                oracle="rspt", gs=oracle.gs_record(names, K, maxcls, dn=dn,
+                                                   variant=variant)))
     return gm
 
 
@@ -47,7 +52,7 @@ def emit(chk, names, gm_refs, derived, ref, tsyms, key, what, real):
 
 def run(chk):
     quick = chk.tier == "quick"
-    K = 3
+    K = 4
     names = oracle.gs_names(4)
     sizes = [(3, 3), (2, 3), (2, 2)] if quick else [(3, 3), (3, 2), (2, 3), (2, 2)]
     seeds = (1, 2) if quick else (1, 2, 3)
@@ -158,11 +163,69 @@ def run(chk):
         emit(chk, names, refs2, res, Symbol(f"Xgs{n}"), [],
              f"gs:expectation({n},2)", what, True)
     chk.judge_with_header({"op": "globals", "gm": gm2}, chk.events[first:])
+
+    # --- RE partitioning: H0 = excitation-degree conserving part of H --------
+    # amplitude tables = coefficients of the RE perturbed wavefunctions that
+    # Rspt!ReRspt obtains by solving (E0 - H0) psi(n) = ... in determinant
+    # space; the derived residuals must vanish, the derived energies agree.
+    first = len(chk.events)
+    Kre = 2 if quick else 3
+    re_sizes = [(3, 3), (2, 3), (2, 2)] if quick else [(3, 3), (3, 2), (2, 3)]
+    gm3 = global_models(names, re_sizes, seeds[:2], Kre, 3, variant="re")
+    refs3 = [(k + 1, gm3[k]["noa"], gm3[k]["nva"]) for k in range(len(gm3))]
+    re = GroundState(Operators("re"))
+    re_s = GroundState(Operators("re"), first_order_singles=True)
+    for n in range(0, Kre + 2):
+        res, exc = guarded(re.energy, n)
+        chk.count("derivations")
+        what = f"GroundState(re).energy({n})"
+        if exc:
+            chk.report_direct("gs:re-energy:exception", f"{what} raised "
+                              f"{exc['type']}: {exc['msg']}", exc)
+            continue
+        emit(chk, names, refs3, res, Symbol(f"Egs{n}"), [],
+             f"gs:re-energy({n})", what, True)
+    rreqs = [(re, 1, "pphh", "ijab"), (re, 2, "ph", "ia"),
+             (re, 2, "pphh", "ijab"),
+             (re, 1, "pphh", "klcd"), (re, 2, "pphh", "jiba"),
+             (re_s, 1, "ph", "ia"), (re_s, 2, "ph", "kc"),
+             (re_s, 1, "pphh", "ijab")]
+    if not quick:
+        rreqs += [(re, 3, "ph", "ia"), (re, 3, "pphh", "ijab"),
+                  (re_s, 2, "pphh", "ijab"), (re, 2, "ppphhh", "ijkabc")]
+    for (g, n, space, idx) in rreqs:
+        res, exc = guarded(g.amplitude_residual, n, space, idx)
+        chk.count("derivations")
+        if exc and exc.get("timeout"):
+            chk.count("library_timeouts")
+            continue
+        what = f"GroundState(re{', first_order_singles=True' if g is re_s else ''})" \
+               f".amplitude_residual({n}, '{space}', '{idx}')"
+        if exc:
+            chk.report_direct("gs:re-residual:exception", f"{what} raised "
+                              f"{exc['type']}: {exc['msg']}", exc)
+            continue
+        emit(chk, names, refs3, res, S.Zero, get_symbols(idx),
+             f"gs:re-residual({n},{space})", what, True)
+    for n in range(0, Kre + 1):
+        res, exc = guarded(re.expectation_value, n, 1)
+        chk.count("derivations")
+        what = f"GroundState(re).expectation_value({n}, 1)"
+        if exc:
+            chk.report_direct("gs:re-expectation:exception", f"{what} raised "
+                              f"{exc['type']}: {exc['msg']}", exc)
+            continue
+        emit(chk, names, refs3, res, Symbol(f"Xgs{n}"), [],
+             f"gs:re-expectation({n},1)", what, True)
+    chk.judge_with_header({"op": "globals", "gm": gm3}, chk.events[first:])
     return chk.finish(
         rule="each derived ground-state quantity (energies 0..K+1, amplitudes "
              "of every class and order <= K incl. permuted / renamed index "
              "tuples, one-particle expectation values 0..K) is one event; TLC "
              "evaluates the derived expression for every index assignment "
              "with amplitude tables taken from determinant-space RSPT "
-             "(spec/Rspt.tla) and compares it with the RSPT coefficient, on "
+             "(spec/Rspt.tla) and compares it with the RSPT coefficient; RE "
+             "partitioning: energies, one-particle expectation values and "
+             "amplitude residuals (= 0) under the RE wavefunctions obtained by "
+             "in-spec Gauss-Jordan elimination; on "
              f"{len(sizes)} model sizes x {len(seeds)} Hamiltonians")
